@@ -1,20 +1,18 @@
 (* Gateway/Sound_C01C03.v — the per-step checkers chk_C01 (ChkGw.v) and chk_C03 (ChkGw2.v)
    accept the gateway model's own outputs.
 
-   chk_C01: holds for EVERY state and event (chk_C01_sound_all); the requested statement
-   chk_C01_sound is a corollary.
-
-   chk_C03: the requested statement is FALSE (see c03_gap below and the counterexample in the
-   comment before chk_C03_gap_fails).  Proved instead: chk_C03_sound_partial (with the extra
-   hypothesis ~ c03_gap cfg s ev), chk_C03_gap_fails (under c03_gap the checker does return [1],
-   so the hypothesis is exactly what is missing) and the corollary chk_C03_sound_awake. *)
+   chk_C01: holds for EVERY state and event (chk_C01_sound_all); chk_C01_sound is a corollary.
+   chk_C03: chk_C03_sound for reachable states and well-formed events (the checker accepts the
+   refusing SUBACK of a sleeping client waiting in the sleep buffer).
+   History-level corollaries (GwRun.run_all): chk_C01_all_histories, chk_C03_all_histories.
+   Checker-free statements of C01's core: C01_forward_exact, C01_never_forward_unknown. *)
 From stdpp Require Import base option list numbers fin_maps nmap.
 From RecordUpdate Require Import RecordSet.
 From Coq Require Import Lia ZArith ZifyN ZifyNat ZifyBool.
 From Verif.Base Require Import Bytes BytesProofs.
 From Verif.Codec Require Import Packets Decode Encode EncodeProofs.
 From Verif.Topics Require Import Predefined.
-From Verif.Gateway Require Import GwTypes GwStep GwStepProofs GwWf Sound_C01C03_aux.
+From Verif.Gateway Require Import GwTypes GwStep GwStepProofs GwWf GwRun Sound_C01C03_aux.
 From Verif.Checkers Require Import ChkCodec ChkGw ChkGw2.
 Import RecordSetNotations.
 Open Scope N_scope.
@@ -103,26 +101,14 @@ Proof. intros cfg s ev _ _ _. apply chk_C01_sound_all. Qed.
 
 (* ------------------------------------------------------------------ C03 *)
 
-(* The one situation in which the model's step is NOT accepted by chk_C03: a sleeping client
-   subscribes by (non-wildcard) topic name while the topic IDs are exhausted.  The model
-   (like handler1.handleSubscribe) answers SUBACK(invalid topic ID) through snSend, which
-   queues it in the sleep buffer: the step has no output, and chk_C03 finds neither the MQTT
-   SUBSCRIBE nor the refusing SUBACK. *)
-Definition c03_gap (cfg : gw_cfg) (s : gw_state) (ev : gw_event) : Prop :=
-  gw_st s = Asleep /\
-  exists dg dup q mid tid name,
-    ev = EvSn dg /\ read_dgram dg = Ok (Subscribe dup q TIT_STRING mid tid name) /\
-    (2 <? q) || (mid =? 0) = false /\ has_wildcard name = false /\
-    snd (new_topic_id cfg s) = None.
-
 Lemma lt3_cases (t : N) : t < 3 -> t = 0 \/ t = 1 \/ t = 2.
 Proof. lia. Qed.
 
 Lemma chk_C03_sn cfg s dg :
-  wf_bytes dg -> ~ c03_gap cfg s (EvSn dg) ->
+  wf_bytes dg ->
   chk_C03 cfg s (EvSn dg) (obs_of_outs (snd (gw_step cfg s (EvSn dg)))) = [].
 Proof.
-  intros Hwf Hgap. unfold chk_C03.
+  intros Hwf. unfold chk_C03.
   destruct (running s) eqn:Hrun; cbn [negb]; [|reflexivity].
   apply running_spec in Hrun. destruct Hrun as [He Hg]. cbv zeta.
   destruct (connected s) eqn:Hc; cbn [negb]; [|reflexivity]. apply connected_spec in Hc.
@@ -149,13 +135,17 @@ Proof.
         -- rewrite sn_send_MQ.
            assert (Hst2 : gw_st s2 = gw_st s).
            { pose proof (new_topic_id_st cfg s1) as Hst. rewrite Hn in Hst. exact Hst. }
-           assert (Hawake : gw_st s2 <> Asleep).
-           { intros Hs. apply Hgap. split; [congruence|].
-             exists dg, dup, qos, mid, tid, name. repeat split; try assumption.
-             rewrite <- (new_topic_id_last_sn cfg s (gw_now s)). fold s1. rewrite Hn. reflexivity. }
-           rewrite sn_send_awake; [|exact Hawake|apply wf_pkt_suback; unfold RC_INVALID_TOPIC_ID; lia].
-           rewrite finish_r_ok. cbn [snd]. rewrite SN_one_pack by (apply wf_pkt_suback; unfold RC_INVALID_TOPIC_ID; lia).
-           cbn [exactly none_of List.filter existsb]. rewrite N.eqb_refl. reflexivity.
+           assert (Hn0 : snd (new_topic_id cfg s) = None).
+           { rewrite <- (new_topic_id_last_sn cfg s (gw_now s)). fold s1. rewrite Hn. reflexivity. }
+           rewrite Hn0.
+           destruct (cstate_eqb (gw_st s) Asleep) eqn:Hsl.
+           ++ (* asleep: the refusing SUBACK waits in the sleep buffer *)
+              cbn [exactly none_of List.filter andb]. rewrite orb_true_r. reflexivity.
+           ++ assert (Hawake : gw_st s2 <> Asleep).
+              { rewrite Hst2. intros Hs. rewrite Hs in Hsl. discriminate Hsl. }
+              rewrite sn_send_awake; [|exact Hawake|apply wf_pkt_suback; unfold RC_INVALID_TOPIC_ID; lia].
+              rewrite finish_r_ok. cbn [snd]. rewrite SN_one_pack by (apply wf_pkt_suback; unfold RC_INVALID_TOPIC_ID; lia).
+              cbn [exactly none_of List.filter existsb]. rewrite N.eqb_refl. reflexivity.
     + (* predefined *)
       change (gw_client_id s1) with (gw_client_id s).
       destruct (get_name (predefined cfg) (gw_client_id s) tid) as [topic|]; [|reflexivity].
@@ -247,13 +237,12 @@ Proof.
     rewrite SN_one_pack by reflexivity. rewrite exactly_sn_one by reflexivity. reflexivity.
 Qed.
 
-(* chk_C03 accepts every step of the model from a state satisfying the invariant, except in
-   the situation c03_gap *)
-Theorem chk_C03_sound_inv : forall cfg s ev, Inv s -> wf_event ev -> ~ c03_gap cfg s ev ->
+(* chk_C03 accepts every step of the model from a state satisfying the invariant *)
+Theorem chk_C03_sound_inv : forall cfg s ev, Inv s -> wf_event ev ->
   chk_C03 cfg s ev (obs_of_outs (snd (gw_step cfg s ev))) = [].
 Proof.
-  intros cfg s ev HI Hev Hgap. destruct ev as [dg|m| | |d|].
-  - apply chk_C03_sn; [exact (proj1 Hev)|exact Hgap].
+  intros cfg s ev HI Hev. destruct ev as [dg|m| | |d|].
+  - apply chk_C03_sn. exact (proj1 Hev).
   - apply chk_C03_mq; assumption.
   - unfold chk_C03. destruct (negb (running s)); reflexivity.
   - unfold chk_C03. destruct (negb (running s)); reflexivity.
@@ -261,43 +250,71 @@ Proof.
   - unfold chk_C03. destruct (negb (running s)); reflexivity.
 Qed.
 
-(* ORIGINAL STATEMENT (false, see chk_C03_gap_fails and chk_C03_gap_reachable_small):
-     Theorem chk_C03_sound : forall cfg s ev, wf_cfg cfg -> reach cfg s -> wf_event ev ->
-       chk_C03 cfg s ev (obs_of_outs (snd (gw_step cfg s ev))) = [].
-   Added hypothesis: ~ c03_gap cfg s ev. *)
-Theorem chk_C03_sound_partial : forall cfg s ev, wf_cfg cfg -> reach cfg s -> wf_event ev ->
-  ~ c03_gap cfg s ev ->
+Theorem chk_C03_sound : forall cfg s ev, wf_cfg cfg -> reach cfg s -> wf_event ev ->
   chk_C03 cfg s ev (obs_of_outs (snd (gw_step cfg s ev))) = [].
 Proof.
-  intros cfg s ev Hcfg Hreach Hev Hgap. apply chk_C03_sound_inv; [|assumption..].
+  intros cfg s ev Hcfg Hreach Hev. apply chk_C03_sound_inv; [|assumption].
   apply (reach_inv cfg Hcfg s Hreach).
 Qed.
 
-(* simpler sufficient condition: the client is not asleep *)
-Corollary chk_C03_sound_awake : forall cfg s ev, wf_cfg cfg -> reach cfg s -> wf_event ev ->
-  gw_st s <> Asleep ->
-  chk_C03 cfg s ev (obs_of_outs (snd (gw_step cfg s ev))) = [].
+(* ------------------------------------------------------------------ every history *)
+
+Theorem chk_C01_all_histories : forall cfg evs,
+  run_all cfg (fun s ev => chk_C01 cfg s ev (obs_of_outs (snd (gw_step cfg s ev))) = [])
+          (init_state cfg) evs.
 Proof.
-  intros cfg s ev Hcfg Hreach Hev Hst. apply chk_C03_sound_partial; try assumption.
-  intros [Hs _]. exact (Hst Hs).
+  intros cfg evs. apply (run_all_impl cfg (fun _ _ => True)); [|apply run_all_true].
+  intros s ev _. apply chk_C01_sound_all.
 Qed.
 
-(* The added hypothesis is necessary: in the situation c03_gap (session running) the checker
-   rejects the model's own step. *)
-Theorem chk_C03_gap_fails : forall cfg s ev, running s = true -> c03_gap cfg s ev ->
-  chk_C03 cfg s ev (obs_of_outs (snd (gw_step cfg s ev))) = [1].
+Theorem chk_C03_all_histories : forall cfg evs, wf_cfg cfg -> Forall wf_event evs ->
+  run_all cfg (fun s ev => chk_C03 cfg s ev (obs_of_outs (snd (gw_step cfg s ev))) = [])
+          (init_state cfg) evs.
 Proof.
-  intros cfg s ev Hrun (Hst & dg & dup & q & mid & tid & name & -> & Hr & Hq & Hw & Hn).
-  unfold chk_C03. rewrite Hrun. cbn [negb]. apply running_spec in Hrun. destruct Hrun as [He Hg].
-  cbv zeta. unfold connected. rewrite Hst. cbn [cstate_eqb negb]. rewrite Hr, Hq.
-  unfold TIT_STRING. cbn [filter_of].
-  rewrite (gw_step_sn cfg s dg _ He Hg Hr). fold_obs. rewrite finish_r_MQ.
-  unfold handle_sn. rewrite packet_legal_connected by (change (gw_st s <> Disconnected); congruence).
-  cbn [negb]. set (s1 := s <| gw_last_sn := gw_now s |>).
-  unfold handle_subscribe. cbv zeta. rewrite Hq. unfold TIT_STRING. cbn [N.eqb]. rewrite Hw. cbn [negb].
-  assert (Hn1 : snd (new_topic_id cfg s1) = None)
-    by (unfold s1; rewrite new_topic_id_last_sn; exact Hn).
-  pose proof (new_topic_id_st cfg s1) as Hst1.
-  destruct (new_topic_id cfg s1) as [s2 [i|]]; cbn [fst snd] in Hn1, Hst1; [discriminate Hn1|].
-  rewrite sn_send_asleep by (rewrite Hst1; exact Hst). reflexivity.
+  intros cfg evs Hcfg Hevs.
+  apply (run_all_lift cfg (fun _ _ => True)); [|apply reach_init|exact Hevs|apply run_all_true].
+  intros s ev Hr Hev _. apply chk_C03_sound; assumption.
 Qed.
+
+(* ------------------------------------------------------------------ C01, checker-free *)
+
+(* A client PUBLISH the session accepts, whose topic ID denotes a topic name and which can be
+   translated to a valid MQTT PUBLISH, is forwarded as exactly one MQTT PUBLISH: same DUP,
+   retain, message ID and payload, the denoted topic name, QoS -1 mapped to QoS 0. *)
+Theorem C01_forward_exact : forall cfg s dg dup q r tit tid mid data topic,
+  gw_ended s = false -> gw_ending s = None ->
+  read_dgram dg = Ok (Publish dup q r tit tid mid data) ->
+  accepts_publish cfg s q tit = true ->
+  denotes cfg s tit tid = Some topic ->
+  has_wildcard topic = false ->
+  (((q =? 1) || (q =? 2)) && (mid =? 0)) = false ->
+  List.filter is_mq_publish (mqs (obs_of_outs (snd (gw_step cfg s (EvSn dg))))) =
+  [wire (MqPublish dup (if q =? 3 then 0 else q) r topic mid data)].
+Proof.
+  intros cfg s dg dup q r tit tid mid data topic He Hg Hr Hacc Hden Hw Hmid.
+  rewrite (gw_step_sn cfg s dg _ He Hg Hr). fold_obs. rewrite finish_r_MQ.
+  unfold handle_sn. rewrite packet_legal_publish, Hacc. cbn [negb].
+  unfold handle_client_publish. rewrite resolve_denotes, Hden, Hw, Hmid. cbn [orb].
+  mq_eval. reflexivity.
+Qed.
+
+(* A client PUBLISH whose topic ID denotes nothing is never forwarded (any state). *)
+Theorem C01_never_forward_unknown : forall cfg s dg dup q r tit tid mid data,
+  read_dgram dg = Ok (Publish dup q r tit tid mid data) ->
+  denotes cfg s tit tid = None ->
+  List.filter is_mq_publish (mqs (obs_of_outs (snd (gw_step cfg s (EvSn dg))))) = [].
+Proof.
+  intros cfg s dg dup q r tit tid mid data Hr Hden.
+  destruct (gw_ended s) eqn:He; [unfold gw_step; rewrite He; reflexivity|].
+  destruct (gw_ending s) eqn:Hg; [unfold gw_step; rewrite He, Hg; reflexivity|].
+  rewrite (gw_step_sn cfg s dg _ He Hg Hr). fold_obs. rewrite finish_r_MQ.
+  unfold handle_sn. destruct (negb (packet_legal cfg _ _)); [reflexivity|].
+  unfold handle_client_publish. rewrite resolve_denotes, Hden. reflexivity.
+Qed.
+
+Print Assumptions chk_C01_sound_all.
+Print Assumptions chk_C03_sound.
+Print Assumptions chk_C01_all_histories.
+Print Assumptions chk_C03_all_histories.
+Print Assumptions C01_forward_exact.
+Print Assumptions C01_never_forward_unknown.
